@@ -14,7 +14,7 @@ C01 -- Same configuration and seed give bit-identical simulations.
 """
 import os, sys, json, subprocess, copy, hashlib
 import numpy as np
-from vlib.core import Broken, VERIF
+from vlib.core import Broken, VERIF, REPO
 
 IMPORTS = 'Model.Prelude Gen.Gen_Dist Gen.Gen_Sim Model.L6_Sim'
 
@@ -125,7 +125,7 @@ def run(ctx):
             a = make_sim(kind, seed); a.run(); ref = {k: hashlib.sha1(v).hexdigest() for k, v in fingerprint(a).items()}
             users = sorted(module_classes(a) & gclasses)
             for hs in ([rng.randrange(1, 1000)] if kind != 'sis_tx2' else [1, 2, 3, 5]):      # several hash seeds where string-keyed tables are iterated
-                env = dict(os.environ, PYTHONHASHSEED=str(hs), PYTHONPATH='/repo:' + VERIF)
+                env = dict(os.environ, PYTHONHASHSEED=str(hs), PYTHONPATH=REPO + ':' + VERIF)
                 pr = subprocess.run([sys.executable, '-c', WORKER % VERIF, kind, str(seed)], capture_output=True, text=True, env=env, timeout=600)
                 line = [l for l in pr.stdout.splitlines() if l.startswith('FP ')]
                 ctx.count((kind, seed, 'worker', hs), nontrivial=True); ctx.dist('history worker process, other PYTHONHASHSEED')
